@@ -109,6 +109,10 @@ def cases(sh, tier):
         for f in FUNCS:
             for skipna in (False, True):
                 yield {"a": s, "f": f, "axis": ax, "ak": kind, "skipna": skipna}
+            if sh["vk"] in ("f", "f4") and not sh["nan"] and kind in ("name", "none"):
+                yield {"a": s, "f": f, "axis": ax, "ak": kind, "skipna": True, "again": "poke"}
+                if f in ("sum", "max", "any"):
+                    yield {"a": s, "f": f, "axis": ax, "ak": kind, "skipna": True, "again": "fill"}
         if kind in ("pos", "name", "neg"):
             for q in (50, [50], [10, 90]):
                 yield {"a": s, "f": "percentile", "axis": ax, "ak": kind, "q": q}
@@ -139,6 +143,30 @@ def check(case):
     s = case["a"]
     ra = D.build_ref(s)
     a = D.build_impl(s)
+    r = _judge(a, ra, case)
+    if not r["ok"] or r.get("unspecified") or not case.get("again") or ra.vals.dtype.kind != "f" or not ra.vals.size:
+        return r
+    # the same reduction once more on the SAME array after a missing value was written into it behind the library's back - directly into
+    # .values (as the library's own tests do) or with fill(): what the first call found out about the data must not be remembered
+    pos = (0,) * ra.ndim
+    v2 = ra.vals.copy()
+    if case["again"] == "poke":
+        a.values[pos] = np.nan
+        v2[pos] = np.nan
+    else:
+        res = call(a.fill, np.nan)
+        if isinstance(res, Raised):
+            return r
+        v2[...] = np.nan
+    ra2 = R.RA(ra.dims, ra.labels, v2, ra.attrs)
+    r2 = _judge(a, ra2, case)
+    if not r2["ok"]:
+        return bad("second call after NaN was written into the array ({}): {}".format(case["again"], r2.get("detail")), klass=r2.get("klass", "mismatch"))
+    return r
+
+
+def _judge(a, ra, case):
+    s = case["a"]
     before = common.snap(a)
     f, ax = case["f"], case["axis"]
     nd = ra.ndim
